@@ -35,6 +35,7 @@ class _Helper(Contract):
 
 
 class GetInterEdges(_Helper):
+    pure = True   # does not modify any pre-existing object
     qual = "DynamicBayesianNetwork.get_inter_edges"
 
     def variants(self, ex):
@@ -54,6 +55,7 @@ class GetInterEdges(_Helper):
 
 
 class GetIntraEdges(_Helper):
+    pure = True   # does not modify any pre-existing object
     qual = "DynamicBayesianNetwork.get_intra_edges"
 
     def variants(self, ex):
@@ -79,6 +81,7 @@ class GetIntraEdges(_Helper):
 
 
 class GetSliceNodes(_Helper):
+    pure = True   # does not modify any pre-existing object
     qual = "DynamicBayesianNetwork.get_slice_nodes"
 
     def variants(self, ex):
@@ -99,6 +102,7 @@ class GetSliceNodes(_Helper):
 
 
 class GetInterfaceNodes(_Helper):
+    pure = True   # does not modify any pre-existing object
     qual = "DynamicBayesianNetwork.get_interface_nodes"
 
     def variants(self, ex):
